@@ -148,9 +148,22 @@ def run(chk: Check, repo: Repo) -> None:
     # key: both from the group key table by destination
     oc = repo.func(DS, "DataSecure.outgoing_cemi")
     chk.unit(oc)
-    key_s = [n for n in walk_local(oc.node) if isinstance(n, ast.NamedExpr) and n.target.id == "key"]
-    key_r = [n for n in walk_local(rc.node) if isinstance(n, ast.NamedExpr) and n.target.id == "key"]
-    ok = len(key_s) == 1 and len(key_r) == 1 and normalise(key_s[0].value, {}, {oc.node.args.args[1].arg: "FRAME"}) == normalise(key_r[0].value, {}, {cemi_r: "FRAME"}) == "self._group_key_table.get(FRAME.dst_addr)"
+    def key_names(fn, frame: str) -> set[str]:
+        """locals bound (walrus or assignment) to the group key table looked up by the frame's destination"""
+        out = set()
+        for n in walk_local(fn.node):
+            tgt = n.target if isinstance(n, ast.NamedExpr) else (n.targets[0] if isinstance(n, ast.Assign) and len(n.targets) == 1 else None)
+            if isinstance(tgt, ast.Name) and normalise(n.value, {}, {frame: "FRAME"}) == "self._group_key_table.get(FRAME.dst_addr)":
+                out.add(tgt.id)
+        return out
+
+    def passes_key(fn, callee_suffix: str, names: set[str]) -> bool:
+        cs = [c for c in calls(fn.node) if call_name(c).endswith(callee_suffix)]
+        return bool(cs) and all(any(k.arg == "key" and isinstance(k.value, ast.Name) and k.value.id in names for k in c.keywords) for c in cs)
+    ks_names = key_names(oc, oc.node.args.args[1].arg)
+    kr_names = key_names(rc, cemi_r)
+    sd_key_param_forwarded = any(k.arg == "key" and isinstance(k.value, ast.Name) and k.value.id in {a.arg for a in sd.node.args.args} for c in calls(sd.node) if call_name(c).endswith("init_from_plain_apdu") for k in c.keywords)
+    ok = len(ks_names) == 1 and len(kr_names) == 1 and passes_key(oc, "._secure_data_cemi", ks_names) and sd_key_param_forwarded and passes_key(rc, ".get_plain_apdu", kr_names)
     chk.ob("caller-agreement", rc.site(), ok, "both directions take the key from _group_key_table.get(<frame>.dst_addr)", key="caller|key")
     # scf travels in the SecureAPDU
     sa = [c for c in calls(sd.node) if method_name(c) == "SecureAPDU"]
